@@ -343,21 +343,35 @@ func checkFastInvokeFailureBranch(c *report.Ctx) {
 	c.Check("R-NOEFFECT", name+"/reset-received-yields", "an invocation interrupted by a reset leaves the outcome to the reset (no DONE, no body)", okRR, fpos(g), 1, "%v", okRR)
 	if ar := fn(c, rapidcP, "(*Server).AwaitRelease"); ar != nil {
 		af := an.NewFacts(ar)
-		ok := false
-		for _, e := range an.Exits(ar) {
-			if len(e.Vals) == 2 && an.GlobalOf(e.Vals[1]) == "L/rapidcore.ErrInvokeDoneFailed" {
-				ok = af.Holds(e.Ret.Block(), func(ft an.Fact) bool {
-					r, k := an.AsRel(ft)
-					if !k || r.Op != token.GTR {
-						return false
+		// (a) the release succeeds (nil error) only when the DONE carries no error type;
+		// (b) some exit reports ErrInvokeDoneFailed, and only when an error type is present.
+		okNil, okFail, nNil, nFail := true, true, 0, 0
+		sign := func(b *ssa.BasicBlock) (zero, nonzero bool) {
+			for _, ft := range af.At(b) {
+				if x, z, nz := an.LenSign(ft); x != nil {
+					if fr, k := an.AsField(x); k && fr.Field == "ErrorType" {
+						zero, nonzero = zero || z, nonzero || nz
 					}
-					_, isLen := an.LenArg(r.X)
-					n, isC := an.ConstInt(r.Y)
-					return isLen && isC && n == 0
-				})
+				}
+			}
+			return
+		}
+		for _, e := range an.Exits(ar) {
+			if len(e.Vals) != 2 {
+				continue
+			}
+			z, nz := sign(e.Ret.Block())
+			switch {
+			case an.IsNil(e.Vals[1]):
+				nNil++
+				okNil = okNil && z
+			case an.GlobalOf(e.Vals[1]) == "L/rapidcore.ErrInvokeDoneFailed":
+				nFail++
+				okFail = okFail && nz
 			}
 		}
-		c.Check("R-GUARD", an.FuncName(ar)+"/error-type-means-failure", "a DONE carrying an error type makes the release fail with ErrInvokeDoneFailed", ok, fpos(ar), 1, "%v", ok)
+		ok := okNil && okFail && nNil >= 1 && nFail >= 1
+		c.Check("R-GUARD", an.FuncName(ar)+"/error-type-means-failure", "the release succeeds only for a DONE without error type; a DONE carrying an error type makes it fail (ErrInvokeDoneFailed unless it is the init failure)", ok, fpos(ar), nNil+nFail, "successful exits: %d (all under 'no error type': %v); ErrInvokeDoneFailed exits: %d (all under 'error type present': %v)", nNil, okNil, nFail, okFail)
 	}
 	var names []string
 	for _, st := range callSites(c, srvT+".trySendDefaultErrorResponse") {
